@@ -1976,6 +1976,42 @@ class SymList(SymIter):
             E.exec_block(node.orelse, env)
 
 
+def set_attr(E, v, name):
+    """set methods; elements are compared with values_equal (an element whose equality with a member is symbolic is decided by
+    branching)"""
+    def member(x):
+        for y in list(v):
+            e = values_equal(E, y, x)
+            if e is True or (e is not False and E.decide(e, 'set-member')):
+                return y
+        return None
+    if name in ('add', 'discard', 'remove', 'update', 'clear', 'pop'):
+        E.note_mutation(v)
+    if name == 'add':
+        def add(x):
+            if member(x) is None:
+                try:
+                    v.add(x)
+                except TypeError:
+                    E.throw('TypeError', 'unhashable type')
+        return Builtin('set.add', add)
+    if name in ('discard', 'remove'):
+        def drop(x):
+            y = member(x)
+            if y is not None:
+                v.discard(y)
+            elif name == 'remove':
+                E.throw('KeyError', x)
+        return Builtin('set.' + name, drop)
+    if name == 'update':
+        return Builtin('set.update', lambda *its: [set_attr(E, v, 'add').impl(x) for it in its for x in concrete_iter(E, it)] and None)
+    if name == 'clear':
+        return Builtin('set.clear', lambda: v.clear())
+    if name == 'copy':
+        return Builtin('set.copy', lambda: set(v))
+    return NOATTR
+
+
 def symlist_attr(E, v, name):
     from . import aio as _aio
     if name == 'append':
@@ -2054,6 +2090,8 @@ def value_attr(E, obj, name):
         return list_attr(E, obj, name)
     if isinstance(obj, SymList):
         return symlist_attr(E, obj, name)
+    if isinstance(obj, set):
+        return set_attr(E, obj, name)
     if isinstance(obj, dict):
         return dict_attr(E, obj, name)
     if isinstance(obj, SMap):
